@@ -305,7 +305,8 @@ def P_PROVIDED(body, ctx):
 
 
 def P_FOR_REFS(body, ctx):
-    """A parameter `P: impl IntoIterator<Item = &'a T>` whose only use is `for X in P { B }`
+    """A parameter `P: impl IntoIterator<Item = &'a T>` whose only use is `for X in P { B }` (a method or field
+    that happens to have the parameter's name, `m.P(..)`, is not a use of the parameter)
     -> `P: &[&'a T]` and `{ let mut k_: usize = 0; while k_ < P.len() { let X = P[k_]; k_ += 1; B } }`.
     The function consumes the iterable once, front to back; a slice of references is the finite sequence
     of items any such iterable yields (iterables that never end or have side effects are outside the
@@ -319,7 +320,12 @@ def P_FOR_REFS(body, ctx):
             break
         p, item = m.group(1), m.group(2).strip()
         mask = code_mask(body)
-        uses = [u for u in re.finditer(r'(?<![A-Za-z0-9_])' + re.escape(p) + r'(?![A-Za-z0-9_])', body) if mask[u.start()]]
+        # uses of the parameter: the identifier P, not a method / field of the same name (`x.P(..)`, `x.P`; `a..P` is a use)
+        def _is_member(k):
+            j = _skip_ws_back(body, k)
+            return j > 0 and body[j - 1] == '.' and not (j > 1 and body[j - 2] == '.')
+        uses = [u for u in re.finditer(r'(?<![A-Za-z0-9_])' + re.escape(p) + r'(?![A-Za-z0-9_])', body)
+                if mask[u.start()] and not _is_member(u.start())]
         mf = None
         for f in re.finditer(r'(?<![A-Za-z0-9_.])for\s+(.+?)\s+in\s+' + re.escape(p) + r'\s*\{', body):
             if mask[f.start()]:
